@@ -227,6 +227,9 @@ def sites_of(P, body):
                 last = n.rsplit("::", 1)[-1]
                 if last in API_PANICKY and (n.startswith("core::slice::") or n.startswith("std::vec::Vec") or n.startswith("std::slice::") or n.startswith("core::str::") or "VecDeque" in n):
                     out.append(Site(body, bb, "api", last, tm["args"], tm["sp"], tm.get("exp", False), tm))
+                elif last in ("from_secs_f64", "from_secs_f32", "mul_f64", "mul_f32", "div_f64", "div_f32") and "Duration" in n:
+                    # panics when the result is negative, not finite, or does not fit
+                    out.append(Site(body, bb, "api", "float-duration:" + last, tm["args"], tm["sp"], tm.get("exp", False), tm))
                 elif last in STRING_PANICKY and n.startswith("std::string::String::"):
                     # byte positions inside a String must fall on character boundaries
                     out.append(Site(body, bb, "api", "str-boundary:" + last, tm["args"], tm["sp"], tm.get("exp", False), tm))
